@@ -172,6 +172,7 @@ def _writer_sequence(setup: FuncInfo, unix: bool) -> Tuple[List[str], str]:
 def run(ch: Checker) -> None:
     prog = ch.prog
     ce = ConstEval(prog)
+    ch.rule('C19.9', 'a stop flag that is set in the parent and read in a child process is a multiprocessing.Event: `self.running` of the acceptor and of the threadless executors (a threading.Event is a private copy after the fork)', 2)
     ch.rule('C19.8', 'nobody waits without having asked: every unbounded join() of a thread or process is in a function that first asks it to stop (Event.set(), queue.put(False), terminate()); a join on something that only ends when a client acts makes shutdown hang before listeners and files are released', 5)
     ch.rule('C19.6', 'hand-over of accepted connections: delegate_work_to_pool sends the client address exactly under the condition under which RemoteFdExecutor.receive_from_work_queue '
                      'reads one (both decide on unix_socket_path): otherwise the two ends of the pipe disagree about what the next message is and the worker dies on the first connection', 1)
@@ -453,6 +454,39 @@ def run(ch: Checker) -> None:
     ch.check(sig and jn and all('self.flags.num_workers' in r for r in rng) and len(rng) >= 2, 'C19.3b', wsd, 'workers stop+join',
              'every worker is signalled and joined (loops over num_workers)',
              'ThreadlessPool._shutdown_workers does not signal and join all num_workers workers (calls %s, loops %s)' % (txt, rng))
+    # ---------------- C19.9 the stop signal reaches the process it is meant for
+    n9 = 0
+    proc_classes = []
+    for ci9 in prog.classes.values():
+        if not ci9.module.name.startswith('proxy.') or ci9.module.name.startswith(('proxy.testing', 'proxy.plugin')):
+            continue
+        init9 = ci9.methods.get('__init__')
+        if init9 is None:
+            continue
+        for st9 in walk_no_nested(init9.node):
+            if isinstance(st9, (ast.Assign, ast.AnnAssign)) and st9.value is not None:
+                tg9 = st9.targets[0] if isinstance(st9, ast.Assign) else st9.target
+                if attr_chain(tg9) == 'self.running' and isinstance(st9.value, ast.Call):
+                    # does an instance of this class (or of a subclass) run in another process?  Its run() is the target of a
+                    # multiprocessing.Process, or the class itself derives from multiprocessing.Process
+                    names9 = {ci9.name} | {s_.name for s_ in prog.subclasses(ci9)}
+                    is_proc = any('multiprocessing.Process' in prog.external_bases(x) or 'Process' in prog.external_bases(x) for x in [ci9] + prog.subclasses(ci9))
+                    target_of_proc = False
+                    for fn9 in prog.all_functions('proxy', include_inlined=True):
+                        for c9 in walk_no_nested(fn9.node):
+                            if isinstance(c9, ast.Call) and (attr_chain(c9.func) or '').endswith('Process') and any(k9.arg == 'target' for k9 in c9.keywords):
+                                target_of_proc = target_of_proc or True
+                    in_child = is_proc or (target_of_proc and any(nm in ('Threadless',) or 'Executor' in nm for nm in names9))
+                    if not in_child:
+                        continue
+                    n9 += 1
+                    ctor = attr_chain(st9.value.func) or ''
+                    ch.check(ctor in ('multiprocessing.Event',), 'C19.9', init9, st9,
+                             'the stop flag of a class that runs in a child process is a multiprocessing.Event',
+                             '%s.running is created with %s(): instances of this class run in a child process while shutdown sets the flag in the parent, and only a multiprocessing.Event is shared across '
+                             'that boundary -- the child never sees the request to stop, the join that follows never returns, and listeners, pid file and port file are never released' % (ci9.name, ctor))
+    if n9 == 0:
+        raise AnalysisError('anchor vanished: no `self.running = <Event>()` in a class that runs in a child process')
     # ---------------- C19.8 nobody waits without having asked
     n8 = 0
     for fn in prog.all_functions('proxy'):          # private helpers are judged as part of their callers (they are inlined there)
